@@ -181,12 +181,17 @@ theorem core_spelling_invariant (set : List Raw) (wf : WF set) (t t' : TxV)
 example : parse "0x742d35cc6634c0532925a3b844bc9e7595f0beb0".toList = parse "742D35CC6634C0532925A3B844BC9E7595F0BEB0".toList ∧
     (parse "0X742d35Cc6634C0532925a3b844Bc9e7595f0bEb0".toList).isSome = true := by decide
 
-/-- **consensus side**: at a height where the rule is active, a receipt other than ExecErr means the executed
-transaction — the transaction itself, every member of its group, the inner transaction of a proxied one — touches
-no blacklisted account in any position or spelling. -/
-theorem exec_ok_not_blocked (set : List Raw) (wf : WF set) (item : Item) (i : Nat) (t : TxV) (ty : Ty)
-    (ht : item.effective[i]? = some t) (hr : (execItem true set item)[i]? = some ty) (hne : ty ≠ .err) :
-    ¬ Touches set t := by
+/-- **consensus side, partial**: at every height `height ≥ forkHeight` (the configured activation height), a receipt
+other than ExecErr means the executed transaction — the transaction itself, every member of its group, the inner
+transaction of a proxied one — touches no blacklisted account in any position or spelling. Added hypothesis: the item
+is not a para-chain "forwarded" transaction (`IsForward2MainChainTx`; impossible on a main-chain node, and on a para
+node only for executors listed in rpc.parachain.forwardExecs or for transactions of other chains). -/
+theorem exec_ok_not_blocked_partial (set : List Raw) (wf : WF set) (forkHeight height : Nat) (hh : forkHeight ≤ height)
+    (item : Item) (hfw : item.isForwarded = false) (i : Nat) (t : TxV) (ty : Ty)
+    (ht : item.effective[i]? = some t) (hr : (execItem (activeAt forkHeight height) set item)[i]? = some ty)
+    (hne : ty ≠ .err) : ¬ Touches set t := by
+  have hact : activeAt forkHeight height = true := by simp [activeAt, hh]
+  rw [hact] at hr
   intro htouch
   have hc : (check true set t).isSome = true := by
     simp only [check, if_true]; exact (core_iff_touches set wf t).mpr htouch
@@ -219,6 +224,18 @@ theorem exec_ok_not_blocked (set : List Raw) (wf : WF set) (item : Item) (i : Na
         simp at ht; subst ht
         simp [execItem, hc] at hr; exact hne hr.symm
       | succ n => simp at ht
+  | forwarded t0 base => simp [Item.isForwarded] at hfw
+
+/-- before the activation height nothing is rejected by the rule: the receipts are the baseline ones. -/
+theorem exec_before_activation (set : List Raw) (forkHeight height : Nat) (hh : height < forkHeight) (t : TxV) (base : Ty) :
+    execItem (activeAt forkHeight height) set (.single t base) = [base] := by
+  have : activeAt forkHeight height = false := by simp [activeAt]; omega
+  simp [execItem, check, this]
+
+/-- the statement the property asks of block execution: the above for EVERY item. -/
+def ExecFullStatement : Prop :=
+  ∀ (set : List Raw) (_ : WF set) (forkHeight height : Nat) (_ : forkHeight ≤ height) (item : Item) (i : Nat) (t : TxV) (ty : Ty),
+    item.effective[i]? = some t → (execItem (activeAt forkHeight height) set item)[i]? = some ty → ty ≠ .err → ¬ Touches set t
 
 /-- non-vacuity: a group passes when nobody is listed, and is rejected as a whole when one member is. -/
 def exClean : TxV := { sender := "0x1111111111111111111111111111111111111111".toList, to := "0x2222222222222222222222222222222222222222".toList, realTo := "0x2222222222222222222222222222222222222222".toList, execer := "coins".toList, payload := none }
@@ -228,6 +245,32 @@ example :
       (execItem true set (.group [(exClean, .ok), (exClean, .pack)]), execItem true set (.group [(exClean, .ok), (exDirty, .ok)]),
         execItem false set (.group [(exClean, .ok), (exDirty, .ok)]))) =
       some ([.ok, .pack], [.err, .err], [.ok, .ok]) := by
+  decide
+
+def exOuter : TxV := { sender := "0x1111111111111111111111111111111111111111".toList, to := "0x0000000000000000000000000000000000200005".toList, realTo := "0x0000000000000000000000000000000000200005".toList, execer := "coins".toList, payload := none }
+def exInnerClean : TxV := { sender := "0x1111111111111111111111111111111111111111".toList, to := "0x2222222222222222222222222222222222222222".toList, realTo := "0x2222222222222222222222222222222222222222".toList, execer := "coins".toList, payload := none }
+def exInnerDirty : TxV := { sender := "0x1111111111111111111111111111111111111111".toList, to := "0x0707070707070707070707070707070707070707".toList, realTo := "0x0707070707070707070707070707070707070707".toList, execer := "coins".toList, payload := none }
+
+/-- **the full execution statement is false of the code on a para chain**: `executor.checkTx` returns nil at its first
+line for a forwarded transaction (`cfg.IsPara() && IsForward2MainChainTx`): with `forwardExecs = ["coins"]` a transfer of
+this para chain to a blacklisted account gets the receipt ExecOk at an active height. (The main chain does not stop it
+either: there the real recipient is `tx.To`, the executor address.) Replayed on a para testnode (known finding). -/
+theorem exec_full_false : ¬ ExecFullStatement := by
+  intro h
+  have hwf : WF [List.replicate 20 (7 : UInt8)] := by intro r hr; simp at hr; subst hr; rfl
+  have h1 := h [List.replicate 20 (7 : UInt8)] hwf 10 12 (by omega) (.forwarded exInnerDirty .ok) 0 exInnerDirty .ok (by decide) (by decide) (by decide)
+  exact h1 ⟨List.replicate 20 (7 : UInt8), by simp, Or.inr (Or.inl (by decide))⟩
+
+/-- the outer transaction of a proxied item is not looked at by the executor (it is replaced by the inner one before
+`checkTx`): an outer whose own EVM contract-address field is blacklisted keeps its baseline receipt. The outer's payload
+is never executed as an EVM call (only the inner transaction runs), and the pool and the producer do check the outer
+transaction; declared, not a finding. -/
+theorem proxied_outer_not_checked :
+    execItem true [List.replicate 20 (7 : UInt8)]
+      (.proxied { exOuter with execer := "evm".toList, payload := some { contract := "0x0707070707070707070707070707070707070707".toList, para := [] } }
+        (some exInnerClean) .ok) = [.ok] ∧
+    producerTakes true [List.replicate 20 (7 : UInt8)]
+      [{ exOuter with execer := "evm".toList, payload := some { contract := "0x0707070707070707070707070707070707070707".toList, para := [] } }] = false := by
   decide
 
 /-- the block producer never packs such a transaction or group at an active height. -/
@@ -244,8 +287,8 @@ only if none of the submitted transactions — the transaction, every member of 
 account, and, for every member that is a proxy-exec transaction (`PoolTx.inner = some t`: Ethereum sign id, `To` =
 `exec.proxyExecAddress`, real executor `evm`, payload `Para` decodes as a transaction), neither does the inner
 transaction that will really be executed. -/
-theorem pool_rejects_always (set : List Raw) (wf : WF set) (ts : List PoolTx) (base : PoolRes)
-    (h : poolSubmit set ts true base = .accepted) :
+theorem pool_rejects_always (set : List Raw) (wf : WF set) (ts : List PoolTx) (reach : Bool) (base : PoolRes)
+    (h : poolSubmit set ts reach base = .accepted) :
     ∀ m ∈ ts, ¬ Touches set m.outer ∧ ∀ t, m.inner = some t → ¬ Touches set t := by
   have key : ∀ l : List PoolTx, (∃ m ∈ l, Touches set m.outer ∨ ∃ t, m.inner = some t ∧ Touches set t) →
       ∃ r, poolMembers set l = some r ∧ r ≠ .accepted := by
@@ -277,14 +320,14 @@ theorem pool_rejects_always (set : List Raw) (wf : WF set) (ts : List PoolTx) (b
   have hno : ¬ (Touches set m.outer ∨ ∃ t, m.inner = some t ∧ Touches set t) := by
     intro ht
     obtain ⟨r, hr, hne⟩ := key ts ⟨m, hm, ht⟩
-    simp [poolSubmit, hr] at h
-    exact hne h
+    cases reach with
+    | false => simp [poolSubmit] at h
+    | true =>
+      simp [poolSubmit, hr] at h
+      exact hne h
   exact ⟨fun x => hno (Or.inl x), fun t ht x => hno (Or.inr ⟨t, ht, x⟩)⟩
 
 /-- non-vacuity: a clean proxy-exec submission is accepted, one whose inner recipient is listed is blocked. -/
-def exOuter : TxV := { sender := "0x1111111111111111111111111111111111111111".toList, to := "0x0000000000000000000000000000000000200005".toList, realTo := "0x0000000000000000000000000000000000200005".toList, execer := "coins".toList, payload := none }
-def exInnerClean : TxV := { sender := "0x1111111111111111111111111111111111111111".toList, to := "0x2222222222222222222222222222222222222222".toList, realTo := "0x2222222222222222222222222222222222222222".toList, execer := "coins".toList, payload := none }
-def exInnerDirty : TxV := { sender := "0x1111111111111111111111111111111111111111".toList, to := "0x0707070707070707070707070707070707070707".toList, realTo := "0x0707070707070707070707070707070707070707".toList, execer := "coins".toList, payload := none }
 example :
     poolSubmit [List.replicate 20 (7 : UInt8)] [{ outer := exOuter, addrOk := true, inner := some exInnerClean }] true .accepted = .accepted ∧
     poolSubmit [List.replicate 20 (7 : UInt8)] [{ outer := exOuter, addrOk := true, inner := some exInnerDirty }] true .accepted = .blocked := by
@@ -295,6 +338,22 @@ theorem delay_rejects_always (set : List Raw) (wf : WF set) (t : TxV) (h : delay
   intro htouch
   have hc : (core set t).isSome = true := (core_iff_touches set wf t).mpr htouch
   simp [delayTakes, hc] at h
+
+/-- **para-chain pool**: `mempool.checkTxs` passes a forwarded submission (`IsForward2MainChainTx`) on before any check: the
+para node's pool takes it whatever it touches (it is meant for the main chain, whose pool applies the rule; the para
+chain's blocks are not built from this pool). Declared; replayed on a para testnode. -/
+theorem pool_para_forwarded_unchecked :
+    poolSubmitPara [List.replicate 20 (7 : UInt8)] [{ outer := exInnerDirty, addrOk := true, inner := none }] true true .accepted = .accepted ∧
+    poolSubmitPara [List.replicate 20 (7 : UInt8)] [{ outer := exInnerDirty, addrOk := true, inner := none }] true false .accepted = .blocked := by
+  decide
+
+/-- **delayed proxy-exec transactions**: `eventAddDelayTx` / `addDelayTx` check the delayed transaction itself only
+(no unwrapping): one whose inner recipient is blacklisted is cached — and rejected when its delay expires and it is
+pushed through the pool's `checkTxs`, so it never reaches the pool queue. Declared. -/
+theorem delay_admits_proxied_blocked :
+    delayTakes [List.replicate 20 (7 : UInt8)] exOuter = true ∧
+    delayExpires [List.replicate 20 (7 : UInt8)] { outer := exOuter, addrOk := true, inner := some exInnerDirty } .accepted = .blocked := by
+  decide
 
 /-- **regression witness for the defect repaired in /repo (fix 1445781)**: the pool as it was looked at the
 submitted (outer) transaction only — a proxy-exec transaction whose inner recipient is blacklisted was accepted
